@@ -2983,8 +2983,12 @@ class TLSConnection(TLSRecordLayer):
         psks = clientHello.getExtension(ExtensionType.pre_shared_key)
         psk_types = clientHello.getExtension(
             ExtensionType.psk_key_exchange_modes)
-        if psks and (PskKeyExchangeMode.psk_dhe_ke in psk_types.modes or
-                     PskKeyExchangeMode.psk_ke in psk_types.modes) and \
+        # a PSK can be selected only together with a key exchange mode that
+        # both sides allow (RFC 8446, section 4.2.9), otherwise continue
+        # with a certificate based handshake
+        if psks and psk_types and \
+                any(getattr(PskKeyExchangeMode, i) in psk_types.modes
+                    for i in settings.psk_modes) and \
                 (settings.pskConfigs or settings.ticketKeys):
             for i, ident in enumerate(psks.identities):
                 ticket = None
